@@ -2,6 +2,7 @@
 use crate::rng::Rng;
 use std::collections::{BTreeMap, HashSet};
 
+pub mod c01;
 pub mod c02;
 pub mod c04;
 pub mod c07;
@@ -89,6 +90,7 @@ pub fn generate(prop: &str, tier: &str, g: &mut Gen) {
         "C15" => grid::generate_c15(g, thorough),
         "C13" => c13::generate(g, thorough),
         "C10" => c10::generate(g, thorough),
+        "C01" => c01::generate(g, thorough),
         "C11" => c11::generate(g, thorough),
         _ => {}
     }
